@@ -351,7 +351,9 @@ class NinjaBuildElement:
         # Always convert from GCC-style argument naming to the naming used by the
         # current compiler. Also filter system include paths, deduplicate, etc.
         if isinstance(elems, CompilerArgs):
-            elems = elems.to_native()
+            # Callers keep using the argument list afterwards (e.g. for the
+            # introspection data), so it must not be converted in place.
+            elems = elems.to_native(copy=True)
         if isinstance(elems, str):
             elems = [elems]
         self.elems.append((name, elems))
